@@ -16,6 +16,9 @@ use std::time::{Duration, Instant};
 pub enum SrcKind {
     Mem,
     Fs,
+    /// a custom source that owns an event-producing thread: the thread stops when `EventSender::send`
+    /// reports `Disconnected`, and the source's destructor waits for it
+    Feeder,
 }
 
 #[derive(Debug, Clone, Copy, Serialize, Deserialize, PartialEq, Eq)]
@@ -47,6 +50,56 @@ pub struct Case {
 enum Live {
     Mem(AssetCache<MemSource>, MemSource),
     Fs(AssetCache<FileSystem>, std::path::PathBuf),
+    Feeder(AssetCache<FeederSource>, std::sync::Arc<FeederStats>),
+}
+
+#[derive(Default)]
+pub struct FeederStats {
+    sends: std::sync::atomic::AtomicU64,
+    stopped: std::sync::atomic::AtomicBool,
+}
+
+pub struct FeederSource {
+    inner: MemSource,
+    stats: std::sync::Arc<FeederStats>,
+    feeder: std::sync::Mutex<Option<std::thread::JoinHandle<()>>>,
+}
+
+impl assets_manager::source::Source for FeederSource {
+    fn read(&self, id: &str, ext: &str) -> std::io::Result<assets_manager::source::FileContent<'_>> {
+        self.inner.read(id, ext)
+    }
+    fn read_dir(&self, id: &str, f: &mut dyn FnMut(assets_manager::source::DirEntry)) -> std::io::Result<()> {
+        self.inner.read_dir(id, f)
+    }
+    fn exists(&self, entry: assets_manager::source::DirEntry) -> bool {
+        self.inner.exists(entry)
+    }
+    fn make_source(&self) -> Option<Box<dyn assets_manager::source::Source + Send>> {
+        self.inner.make_source()
+    }
+    fn configure_hot_reloading(&self, events: assets_manager::hot_reloading::EventSender) -> Result<(), assets_manager::BoxedError> {
+        let stats = self.stats.clone();
+        let h = std::thread::Builder::new().name("vcheck_feeder".into()).spawn(move || {
+            // an entry nobody depends on: the reloader wakes up, finds nothing to do
+            let noise = assets_manager::source::OwnedDirEntry::File("unrelated".into(), "zz".into());
+            while events.send(noise.clone()).is_ok() {
+                stats.sends.fetch_add(1, std::sync::atomic::Ordering::SeqCst);
+                std::thread::sleep(Duration::from_millis(1));
+            }
+            stats.stopped.store(true, std::sync::atomic::Ordering::SeqCst);
+        })?;
+        *self.feeder.lock().unwrap() = Some(h);
+        Ok(())
+    }
+}
+
+impl Drop for FeederSource {
+    fn drop(&mut self) {
+        if let Some(h) = self.feeder.lock().unwrap().take() {
+            let _ = h.join();
+        }
+    }
 }
 
 fn reloader_tids() -> BTreeSet<u32> {
@@ -78,10 +131,10 @@ impl Prop for C15 {
     }
 
     fn rule(&self) -> String {
-        "cases = sequences over 1..4 caches with hot-reloading on an in-memory (custom) source or a real FileSystem source in a temp dir: create, load k assets, send events, call hot_reload, optionally let the source drop its EventSender, \
+        "cases = sequences over 1..4 caches with hot-reloading on an in-memory (custom) source, a custom source owning an event-producing thread (stopped by Disconnected from EventSender::send, joined by the source's destructor) or a real FileSystem source in a temp dir: create, load k assets, send events, call hot_reload, optionally let the source drop its EventSender, \
          then drop the cache while idle / right after hot_reload / with events still queued / right after loads; for filesystem caches optionally change files in the directory afterwards (an asset, or only a file that maps to no id). \
          Oracle from /proc/self/task (per-thread CPU ticks and states, never wall-clock latency): while the harness idles for 400 ms every live reloader thread accrues <= 2 ticks; during the 2 s after the drops each reloader thread of a dropped cache \
-         has disappeared, or at least did not accrue >= 25 ticks while still running in the last 500 ms; after a change in a dropped filesystem cache's directory its watcher thread is gone too (thread count back to the baseline, polled for up to 10 s). \
+         has disappeared, or at least did not accrue >= 25 ticks while still running in the last 500 ms; after a change in a dropped filesystem cache's directory its watcher thread is gone too (thread count back to the baseline, polled for up to 10 s); dropping a cache on the feeder source finishes before the feeder got 3000 more events accepted. \
          non-trivial = a drop with events still queued or right after a hot_reload, or a source that dropped its sender, or a filesystem cache; distinct = different canonical JSON"
             .into()
     }
@@ -107,7 +160,7 @@ impl Prop for C15 {
 
     fn strategy(&self, _tier: Tier) -> BoxedStrategy<Value> {
         let spec = (
-            prop_oneof![3 => Just(SrcKind::Mem), 2 => Just(SrcKind::Fs)],
+            prop_oneof![3 => Just(SrcKind::Mem), 2 => Just(SrcKind::Fs), 1 => Just(SrcKind::Feeder)],
             0u8..4,
             0u8..6,
             0u8..4,
@@ -135,6 +188,14 @@ impl Prop for C15 {
                     }
                     Live::Mem(AssetCache::with_source(src.handle()), src)
                 }
+                SrcKind::Feeder => {
+                    let src = MemSource::new(true);
+                    for i in 0..4 {
+                        src.tree().put(&format!("a{i}"), "v", b"1".to_vec(), Variant::Buffer);
+                    }
+                    let stats = std::sync::Arc::new(FeederStats::default());
+                    Live::Feeder(AssetCache::with_source(FeederSource { inner: src, stats: stats.clone(), feeder: std::sync::Mutex::new(None) }), stats)
+                }
                 SrcKind::Fs => {
                     let dir = tmpdir("fs");
                     for i in 0..4 {
@@ -159,6 +220,7 @@ impl Prop for C15 {
                 match &l {
                     Live::Mem(cache, _) => drop(cache.load::<Ver>(&format!("a{i}"))),
                     Live::Fs(cache, _) => drop(cache.load::<Ver>(&format!("a{i}"))),
+                    Live::Feeder(cache, _) => drop(cache.load::<Ver>(&format!("a{i}"))),
                 }
             }
             let send_events = |n: u8| {
@@ -172,6 +234,8 @@ impl Prop for C15 {
                         Live::Fs(_, dir) => {
                             let _ = std::fs::write(dir.join(format!("a{}.v", k % 4)), format!("{}", k as u32 + 2));
                         }
+                        // the feeder sends on its own
+                        Live::Feeder(..) => {}
                     }
                 }
             };
@@ -181,6 +245,7 @@ impl Prop for C15 {
                     match &l {
                         Live::Mem(cache, _) => cache.hot_reload(),
                         Live::Fs(cache, _) => cache.hot_reload(),
+                        Live::Feeder(cache, _) => cache.hot_reload(),
                     }
                 }
             }
@@ -191,6 +256,10 @@ impl Prop for C15 {
             let t0: Vec<Option<(u64, char)>> = live.iter().map(|(_, tid, _)| tid.and_then(ticks_of)).collect();
             std::thread::sleep(Duration::from_millis(400));
             for (i, (_, tid, spec)) in live.iter().enumerate() {
+                if spec.kind == SrcKind::Feeder {
+                    // its reloader is woken by the feeder's events all the time: not idle
+                    continue;
+                }
                 if let (Some(tid), Some((a, _))) = (tid, t0[i]) {
                     if let Some((b, state)) = ticks_of(*tid) {
                         if b - a > 2 {
@@ -221,6 +290,7 @@ impl Prop for C15 {
         let mut watched: Vec<(u32, SrcKind, u64)> = Vec::new();
         let mut fs_dirs: Vec<(std::path::PathBuf, u8)> = Vec::new();
         let mut tricky = false;
+        let mut feeder_used = false;
         for (l, tid, spec) in live {
             match spec.timing {
                 DropTiming::EventsQueued => {
@@ -236,6 +306,7 @@ impl Prop for C15 {
                                 let _ = std::fs::write(dir.join(format!("a{}.v", k % 4)), b"9");
                             }
                         }
+                        Live::Feeder(..) => {}
                     }
                 }
                 DropTiming::RightAfterHotReload => {
@@ -243,6 +314,7 @@ impl Prop for C15 {
                     match &l {
                         Live::Mem(cache, _) => cache.hot_reload(),
                         Live::Fs(cache, _) => cache.hot_reload(),
+                        Live::Feeder(cache, _) => cache.hot_reload(),
                     }
                 }
                 _ => {}
@@ -258,6 +330,35 @@ impl Prop for C15 {
                 Live::Fs(cache, dir) => {
                     drop(cache);
                     fs_dirs.push((dir, spec.after_drop));
+                }
+                Live::Feeder(cache, stats) => {
+                    // the drop runs on a helper thread; progress is counted in events the feeder still gets
+                    // accepted, not in time: once the cache is being dropped its reloader must stop first, so
+                    // that the feeder sees Disconnected and the source's destructor can return
+                    use std::sync::atomic::Ordering::SeqCst;
+                    feeder_used = true;
+                    let at_drop = stats.sends.load(SeqCst);
+                    let done = std::sync::Arc::new(std::sync::atomic::AtomicBool::new(false));
+                    let d2 = done.clone();
+                    let helper = std::thread::spawn(move || {
+                        drop(cache);
+                        d2.store(true, SeqCst);
+                    });
+                    while !done.load(SeqCst) && stats.sends.load(SeqCst) - at_drop < 3000 {
+                        std::thread::sleep(Duration::from_millis(2));
+                    }
+                    if !done.load(SeqCst) {
+                        out.fail(
+                            "drop-blocked",
+                            format!(
+                                "dropping a cache whose source owns an event-producing thread (stopped by Disconnected, joined by the source's destructor) does not finish: the reloader accepted {} more events after the drop began (feeder stopped: {})",
+                                stats.sends.load(SeqCst) - at_drop,
+                                stats.stopped.load(SeqCst)
+                            ),
+                        );
+                        return out;
+                    }
+                    let _ = helper.join();
                 }
             }
         }
@@ -318,6 +419,9 @@ impl Prop for C15 {
         if !fs_dirs.is_empty() {
             out.label("filesystem-cache");
         }
+        if feeder_used {
+            out.label("source-with-feeder-thread");
+        }
         if fs_checked {
             out.label("fs-change-after-drop");
         }
@@ -325,6 +429,6 @@ impl Prop for C15 {
     }
 
     fn required_labels(&self) -> Vec<&'static str> {
-        vec!["drop-with-queued-events / right-after-hot_reload", "source-dropped-sender", "filesystem-cache"]
+        vec!["drop-with-queued-events / right-after-hot_reload", "source-dropped-sender", "filesystem-cache", "source-with-feeder-thread"]
     }
 }
